@@ -47,7 +47,7 @@ func fieldSets(thorough bool) sets {
 		ports:    []string{"0", "22", "65535"},
 		keytypes: []string{"RSA", "DSA", "ECDSA", "ED25519", "ECDSA-SK", "ED25519-SK", "XMSS", "WEBAUTHN-SK-ECDSA"},
 		fps:      []string{"SHA256:YI+caZKJCNaXgsD0NvRZ2fLaEeF46cEVyadru/SL76o", "MD5:aa:bb:cc:dd:ee:ff:00:11:22:33:44:55:66:77:88:99"},
-		keyids:   []string{"k", "a b", "x (serial 7)", "serial", "ID y", "(z) CA q", "foo@bar.com", "two  blanks"},
+		keyids:   []string{"k", "a b", "x (serial 7)", "serial", "ID y", "(z) CA q", "foo@bar.com", "two  blanks", ""},      // (the last: ssh-keygen -I "")
 		serials:  []string{"0", "18446744073709551615", "18446744073709551616", "7777777777777777777777777777777777777777"}, // 2^64-1, 2^64, 40 digits: the serial is text
 		cas:      []string{"CA ED25519 SHA256:Pcs5TWfcOSKb7Rw/XyvHfUcaQzmw6HtLrjUoyXuzIj8", "CA RSA MD5:aa:bb:cc:dd:ee:ff:00:11:22:33:44:55:66:77:88:99"},
 		shells:   []string{"/bin/zsh", "/opt/my shell/sh", "x", "/opt/tab\tand  blanks/sh"},
@@ -61,7 +61,7 @@ func fieldSets(thorough bool) sets {
 		s.addrs = []string{"1.2.3.4", "fe80::1%eth0", "host.example.com", "FE80::0001"}
 		s.ports = []string{"0", "65535"}
 		s.keytypes = []string{"RSA", "ED25519", "ECDSA-SK", "XMSS"}
-		s.keyids = []string{"k", "a b", "x (serial 7)", "ID y", "two  blanks"}
+		s.keyids = []string{"k", "a b", "x (serial 7)", "ID y", "two  blanks", ""}
 	}
 	return s
 }
